@@ -104,6 +104,10 @@ def eqVal : AVal → AVal → Option Bool
   | .bytes a, .bytes b => some (a == b)
   | _, _ => none
 
+/-- the types whose `randomized()` IS a fresh draw of the whole value (src/key.rs, bodies pinned by the glue facts); `T::randomized()` of any
+    other type has no meaning here -/
+def drawKinds : List String := ["ReconnectData", "PrivateKey", "Salt"]
+
 /-- value of a right-hand side and the state after it (a draw consumes the head of the draw list) -/
 def Rhs.eval (P : Prims) (selfType : String) (s : St) : Rhs → Option (Out (AVal × St))
   | .atom a => (a.val s selfType).map (fun v => .ok (v, s))
@@ -111,9 +115,9 @@ def Rhs.eval (P : Prims) (selfType : String) (s : St) : Rhs → Option (Out (AVa
     let f ← P fn
     let vs ← atomsVal s selfType args
     pure ((f vs).bind (fun v => .ok (v, s)))
-  | .draw _ => match s.draws with
+  | .draw kind => match s.draws with
     | [] => none
-    | d :: r => some (.ok (.bytes d, { s with draws := r }))
+    | d :: r => if drawKinds.contains kind then some (.ok (.bytes d, { s with draws := r })) else none
   | .mk name fs => (fieldsVal s selfType fs).map (fun v => .ok (.struct name v, s))
   | .eq a b => do
     let x ← a.val s selfType
